@@ -397,6 +397,10 @@ def _one_read(scenario: Dict, read_no: int, log, counters, verdicts) -> bool:
                 verdicts.append(kernel.verdict("C19.wrong-object", f"a document with the unresolvable tag(s) {fault_desc} was deserialised into {describe(result_value)}", fault_kind=kind0, why=why0, exception=None))
             elif not isinstance(exc, js.JSONSerializationError):
                 verdicts.append(kernel.verdict("C19.escape", f"tag(s) {fault_desc} ({[c['why'] for c in unresolvable]}): from_json raised {type(exc).__name__}: {exc}", fault_kind=kind0, why=why0, exception=type(exc).__name__))
+            elif type(exc).__name__ not in E:
+                # a JSONSerializationError subclass this harness does not know: it cannot judge whether it identifies
+                # the problem, so it is accepted (and counted)
+                counters.inc("probe.unknown_serialisation_error_subclass")
             elif type(exc).__name__ not in admissible:
                 verdicts.append(kernel.verdict("C19.wrong-error", f"tag(s) {fault_desc} ({[c['why'] for c in unresolvable]}): from_json raised {type(exc).__name__}, which does not identify the problem (admissible: {admissible})", fault_kind=kind0, why=why0, exception=type(exc).__name__))
         elif len(applied) == 1 and classes[0]["class"] == "resolvable" and outcome == "returned":
